@@ -16,10 +16,14 @@
 (* q) of the verbose vector [trans, vib, rot, elec, nucl, refs, misc...].  *)
 (* TLC checks on formal linear combinations that, given the per-mode       *)
 (* definitions G_m = H_m - S_m, F_m = U_m - S_m, H_m - U_m = [FreeTrans],  *)
-(* the totals obey G = H - S, F = U - S, H - U = [trans present], and it   *)
-(* emits every configuration as a replay case.                             *)
+(* the totals obey G = H - S, F = U - S, H - U = [trans present] for every  *)
+(* configuration of physical kinds - and for no configuration that holds a *)
+(* user-set mode (ConstantMode, a user-written partial mode), where every  *)
+(* getter is a free atom: for those only additivity is asserted.  It emits *)
+(* every configuration as a replay case (kinds and the signature table     *)
+(* live in StatMechSig.tla, shared with the trace specification).          *)
 (***************************************************************************)
-EXTENDS Integers, Sequences, FiniteSets, TLC
+EXTENDS StatMechSig, TLC
 
 \* ------------------------------------------------------------ Part 1
 CONSTANTS WN,        \* wavenumber alphabet (integers; <= 0 means imaginary)
@@ -58,33 +62,16 @@ CDone == Len(h) = MaxOps + 1
 EmitBehaviours == CDone => PrintT(<<"BEH", h>>)
 
 \* ------------------------------------------------------------ Part 2
-Getters == {"q", "Cv", "Cp", "U", "H", "S", "F", "G"}
-TransKinds == {"FreeTrans", "Empty"}
-VibKinds == {"Harmonic", "QRRHO", "Einstein", "Debye", "Empty"}
-RotKinds == {"RotMono", "RotLinear", "RotNonlinear", "Empty"}
-ElecKinds == {"GroundState", "Empty"}
-NuclKinds == {"EmptyNucl", "Empty"}
-
-\* keywords consumed by each getter of each mode kind (from the method signatures)
-Sig(kind, g) ==
-   CASE kind = "FreeTrans" -> IF g \in {"q", "S", "F", "G"} THEN {"T", "P"} ELSE {}
-     [] kind = "Harmonic" -> IF g = "q" THEN {"T", "include_ZPE"} ELSE {"T"}
-     [] kind = "QRRHO" -> IF g = "q" THEN {} ELSE {"T"}
-     [] kind \in {"Einstein", "Debye"} -> {"T"}
-     [] kind \in {"RotMono", "RotLinear", "RotNonlinear"} -> IF g \in {"q", "S", "F", "G"} THEN {"T"} ELSE {}
-     [] kind = "GroundState" -> IF g = "q" THEN {"T", "ignore_q_elec"}
-                                ELSE IF g \in {"U", "H", "F", "G"} THEN {"T"} ELSE {}
-     [] OTHER -> {}
-\* getters a mode kind does not provide (raise)
-Missing(kind, g) == kind = "QRRHO" /\ g = "q"
-
 Configs == [trans : TransKinds, vib : VibKinds, rot : RotKinds, elec : ElecKinds, nucl : NuclKinds]
 Modes(c) == <<c.trans, c.vib, c.rot, c.elec, c.nucl>>
+Physical(c) == \A k \in 1..5 : ~UserSet(Modes(c)[k])
 
 \* formal linear combinations: bags of atoms <<slot, quantity>> with integer weights,
-\* after expanding the derived getters by the per-mode definitions
-Atoms == (1..5) \X {"Cv", "Cp", "U", "S", "one"}
+\* after expanding the derived getters by the per-mode definitions.  For a user-set kind every getter
+\* is its own free atom (nothing relates the values the user typed in).
+Atoms == (1..5) \X {"Cv", "Cp", "U", "S", "one", "H", "F", "G"}
 Expand(slot, kind, g) ==            \* function Atoms -> Int for one mode's getter
+   IF UserSet(kind) THEN [a \in Atoms |-> IF a = <<slot, g>> THEN 1 ELSE 0] ELSE
    [a \in Atoms |->
       CASE g = "U" -> IF a = <<slot, "U">> THEN 1 ELSE 0
         [] g = "S" -> IF a = <<slot, "S">> THEN 1 ELSE 0
@@ -104,17 +91,28 @@ Total(c, g) == SumComb(c, g, 5)
 Minus(x, y) == [a \in Atoms |-> x[a] - y[a]]
 HasTrans(c) == c.trans = "FreeTrans"
 OneComb(c) == [a \in Atoms |-> IF a = <<1, "one">> /\ HasTrans(c) THEN 1 ELSE 0]
-AggregatorOK == \A c \in Configs :
-                  /\ Total(c, "G") = Minus(Total(c, "H"), Total(c, "S"))
-                  /\ Total(c, "F") = Minus(Total(c, "U"), Total(c, "S"))
-                  /\ Minus(Total(c, "H"), Total(c, "U")) = OneComb(c)
+Identities(c) == /\ Total(c, "G") = Minus(Total(c, "H"), Total(c, "S"))
+                 /\ Total(c, "F") = Minus(Total(c, "U"), Total(c, "S"))
+                 /\ Minus(Total(c, "H"), Total(c, "U")) = OneComb(c)
+\* the identities follow from the per-mode definitions exactly for the physical configurations
+AggregatorOK == \A c \in Configs : Physical(c) <=> Identities(c)
 \* a keyword reaches exactly the modes whose signature lists it
 Reaches(c, g, kw) == {k \in 1..5 : kw \in Sig(Modes(c)[k], g)}
 PressureOnlyTrans == \A c \in Configs, g \in Getters : Reaches(c, g, "P") \subseteq {1}
+\* option semantics on the design level: with every mode providing every getter (no Partial mode) the eight
+\* getters never depend on raise_error; the zero-point energy is lacked by every slot but a vibrational one
+NoPartial(c) == \A k \in 1..5 : Modes(c)[k] # "Partial"
+NoHave == [k \in 1..5 |-> {}]
+OptionsOK == \A c \in Configs :
+               /\ NoPartial(c) => \A g \in Getters :
+                                     Outcome(Modes(c), NoHave, g, TRUE) = Outcome(Modes(c), NoHave, g, FALSE)
+               /\ {1, 3, 4, 5} \subseteq LackSet(Modes(c), NoHave, "ZPE")
+               /\ Outcome(Modes(c), NoHave, "ZPE", TRUE) = "AttributeError"
+               /\ Outcome(Modes(c), NoHave, "ZPE", FALSE) = "value"
 
 Case(c) == [trans |-> c.trans, vib |-> c.vib, rot |-> c.rot, elec |-> c.elec, nucl |-> c.nucl,
             hasTrans |-> HasTrans(c),
             qMissing |-> \E k \in 1..5 : Missing(Modes(c)[k], "q"),
-            usesT |-> [g \in Getters |-> Reaches(c, g, "T") # {}],
-            usesP |-> [g \in Getters |-> Reaches(c, g, "P") # {}]]
+            physical |-> Identities(c),
+            nLackZPE |-> Cardinality(LackSet(Modes(c), NoHave, "ZPE"))]
 =============================================================================
